@@ -69,11 +69,18 @@ Qed.
 
 (* ---------------------------------------------------------------- strings *)
 
+Section FoldStr.
+
+Variable fold : ascii -> ascii.
+Notation str_eqb := (Lexer.str_eqb fold).
+
 Lemma str_eqb_length ci a : forall b, str_eqb ci a b = true -> String.length a = String.length b.
 Proof.
   induction a as [|x a IH]; intros [|y b]; cbn; try discriminate; auto.
   intros H. apply andb_true_iff in H. destruct H as [_ H]. f_equal. now apply IH.
 Qed.
+
+End FoldStr.
 
 Lemma substring_length s : forall p n,
   (p + n <= String.length s)%nat -> String.length (substring p n s) = n.
@@ -85,9 +92,14 @@ Proof.
     + apply IH. lia.
 Qed.
 
+Section FoldStr2.
+
+Variable fold : ascii -> ascii.
+Notation str_eqb := (Lexer.str_eqb fold).
+
 (* the case-folded comparison, spelled out *)
-Fixpoint lower_str (s : string) : string :=
-  match s with EmptyString => EmptyString | String c r => String (lower c) (lower_str r) end.
+Fixpoint fold_str (s : string) : string :=
+  match s with EmptyString => EmptyString | String c r => String (fold c) (fold_str r) end.
 
 Lemma str_eqb_exact a : forall b, str_eqb false a b = true <-> a = b.
 Proof.
@@ -97,7 +109,7 @@ Proof.
   - intros H; injection H as <- <-. rewrite Ascii.eqb_refl. cbn. now apply IH.
 Qed.
 
-Lemma str_eqb_folded a : forall b, str_eqb true a b = true <-> lower_str a = lower_str b.
+Lemma str_eqb_folded a : forall b, str_eqb true a b = true <-> fold_str a = fold_str b.
 Proof.
   induction a as [|x a IH]; intros [|y b]; cbn; split; try discriminate; auto.
   - intros H. apply andb_true_iff in H. destruct H as [H1 H2].
@@ -105,16 +117,26 @@ Proof.
   - intros H; injection H as H1 H2. rewrite H1, Ascii.eqb_refl. cbn. now apply IH.
 Qed.
 
+End FoldStr2.
+
 Section Unless.
 
+Variable fold : ascii -> ascii.
 Variable m : term -> string -> nat -> option nat.
 Variable text : string.
+
+Notation str_eqb := (Lexer.str_eqb fold).
+Notation str_full := (Lexer.str_full fold).
+Notation str_match_at := (Lexer.str_match_at fold).
+Notation fold_str := (fold_str fold).
+Notation emit := (Lexer.emit fold).
+Notation tok_of := (Lexer.tok_of fold).
 
 Notation unless_of := (Lexer.unless_of m).
 Notation embedded_of := (Lexer.embedded_of m).
 Notation embedded := (Lexer.embedded m).
 Notation scanner_terms := (Lexer.scanner_terms m).
-Notation report := (Lexer.report m).
+Notation report := (Lexer.report fold m).
 Notation is_unless := (Lexer.is_unless m).
 
 (* K is a keyword of the regexp R: same priority and R's match on K's text is all of it *)
@@ -173,9 +195,9 @@ Proof. unfold keyword_of. tauto. Qed.
 (* UnlessCallback's fullmatch on a string terminal: equality, case-folded iff flag i *)
 Lemma str_full_spec K v :
   str_full K v = true <->
-  (if ci_of K then lower_str (tvalue K) = lower_str v else tvalue K = v).
+  (if ci_of K then fold_str (tvalue K) = fold_str v else tvalue K = v).
 Proof.
-  unfold str_full. destruct (ci_of K); [apply str_eqb_folded|apply str_eqb_exact].
+  unfold Lexer.str_full. destruct (ci_of K); [apply str_eqb_folded|apply str_eqb_exact].
 Qed.
 
 Theorem report_string L X v : tre X = false -> report L X v = tname X.
@@ -258,7 +280,7 @@ Lemma str_match_full L K p k :
   k = String.length (tvalue K) /\ str_full K (substring p k text) = true.
 Proof.
   intros Hs Hb Hin Hk Hm. destruct (Hs K Hin Hk) as [_ Hp]. rewrite Hp in Hm.
-  unfold str_match_at in Hm.
+  unfold Lexer.str_match_at in Hm.
   destruct (str_eqb (ci_of K) (tvalue K) (substring p (String.length (tvalue K)) text)) eqn:E; [|discriminate].
   injection Hm as <-. split; [reflexivity|exact E].
 Qed.
@@ -268,8 +290,8 @@ Lemma str_full_match L K p n :
   str_full K (substring p n text) = true -> m K text p = Some n.
 Proof.
   intros Hs Hin Hk Hb Hf. destruct (Hs K Hin Hk) as [_ Hp]. rewrite Hp.
-  unfold str_match_at. unfold str_full in Hf.
-  pose proof (str_eqb_length _ _ _ Hf) as Hl. rewrite substring_length in Hl by assumption.
+  unfold Lexer.str_match_at. unfold Lexer.str_full in Hf.
+  pose proof (str_eqb_length _ _ _ _ Hf) as Hl. rewrite substring_length in Hl by assumption.
   rewrite Hl, Hf. reflexivity.
 Qed.
 
@@ -400,7 +422,7 @@ Lemma emit_cons L ign r rs :
   emit m text L ign (r :: rs) =
   if mem_string (tname (rterm r)) ign then emit m text L ign rs
   else tok_of m text L r :: emit m text L ign rs.
-Proof. unfold emit, ignored. cbn [filter]. now destruct (mem_string (tname (rterm r)) ign). Qed.
+Proof. unfold Lexer.emit, ignored. cbn [filter]. now destruct (mem_string (tname (rterm r)) ign). Qed.
 
 (* two scanners that show the same thing at every position produce the same token stream *)
 Lemma lex_raw_obs_ext L ign mres1 mres2 :
@@ -425,7 +447,7 @@ Proof.
       destruct (IH _ _ _ _ _ E1 E2) as [Hts He]. split; [|assumption].
       rewrite !emit_cons. cbn [rterm]. rewrite Hi.
       destruct (mem_string (tname X2) ign); [assumption|].
-      f_equal; [|assumption]. unfold tok_of. cbn [rterm rstart rlen]. now rewrite Hr.
+      f_equal; [|assumption]. unfold Lexer.tok_of. cbn [rterm rstart rlen]. now rewrite Hr.
     + intros H1 H2; injection H1 as <- <-; injection H2 as <- <-; auto.
 Qed.
 
